@@ -43,6 +43,9 @@ def c01(rec):
 # ---------------------------------------------------------------------------
 # shared helpers
 
+from .modes_carrier import in_carrier  # noqa: E402
+
+
 def _verdict(prop, st, cl=None, det=None, **kw):
     d = {"prop": prop, "status": st, "clause": cl, "detail": det}
     d.update(kw)
@@ -193,6 +196,10 @@ def c03(rec):
     from funsor.interpretations import memoize, moment_matching, sequential
     exp = rec["exp"]
     out = []
+    if not in_carrier(rec["t"]):
+        # normal forms are exact only on the carrier of the semiring (C02/C08: non-negative
+        # data where max or min is paired with mul); programs outside it are not judged
+        return [_verdict("C03", "skipped_out_of_carrier")]
     for iname in ("lazy", "reflect", "normalize"):
         try:
             r = _build(rec, INTERPS[iname])
@@ -208,14 +215,18 @@ def c03(rec):
             out.append(_verdict("C03", "declined_error", iname + ":" + type(ex).__name__))
             continue
         out.append(_eval_check(r, exp, "C03", iname))
-    # memoize: same value, and identical object for the repeated expression
+    # memoize: same value, and the identical object for the repeated identical expression
+    # (identical = same constructor arguments, leaf arrays by identity: leaves are shared)
     try:
+        cache = {}
         with memoize():
-            a = _build(rec)
-            b = _build(rec)
-        if a is not b and not (isinstance(a, Tensor) and isinstance(b, Tensor)):
-            out.append(_verdict("C03", "mismatch", "memoize_not_identical", None))
-        elif a is not b and isinstance(a, Tensor) and rec["t"]["c"] not in ("Ten", "Num", "Var", "Slice"):
+            b1 = fbuild.Builder()
+            b1.leaf_cache = cache
+            a = b1.build(rec["t"])
+            b2 = fbuild.Builder()
+            b2.leaf_cache = cache
+            b = b2.build(rec["t"])
+        if a is not b:
             out.append(_verdict("C03", "mismatch", "memoize_not_identical", None))
         else:
             out.append(_eval_check(a, exp, "C03", "memoize"))
